@@ -32,6 +32,7 @@ type Frame struct {
 	ghosts   map[string]types.Object
 	pendingCopyBack []copyBack
 	pureDepth int
+	lastKey  *Term
 	ghostSets map[types.Object]bool
 }
 
